@@ -9,7 +9,7 @@ open Lentil Finset
 (`Gen.bw…KernelShape`: rows from the vector placed as a column / `meshgrid`'s second argument, columns from the row vector /
 first argument, each of length `img.shape[k]` as written in the code); they equal the image shape `(s0, s1)` for all `s0`, `s1`, so
 `fft2(img) * kernel` is shape-compatible on non-square images (swapping the factors of the outer product gives `(s1, s0)` and
-this statement fails). Outputs have the image's shape. -/
+this statement fails). Outputs have the image's shape (either branch of the zero-total guard). -/
 theorem kernel_shape_eq_image_shape (img : Arr ℝ) (os scale dist ang ps : ℝ) :
     ((pixelKernel img.s0 img.s1 os).s0 = img.s0 ∧ (pixelKernel img.s0 img.s1 os).s1 = img.s1) ∧
     ((jitterKernel img.s0 img.s1 scale ps os).s0 = img.s0 ∧ (jitterKernel img.s0 img.s1 scale ps os).s1 = img.s1) ∧
@@ -17,7 +17,9 @@ theorem kernel_shape_eq_image_shape (img : Arr ℝ) (os scale dist ang ps : ℝ)
     ((pixel ℂ img os).s0 = img.s0 ∧ (pixel ℂ img os).s1 = img.s1) ∧
     ((jitter ℂ img scale ps os).s0 = img.s0 ∧ (jitter ℂ img scale ps os).s1 = img.s1) ∧
     ((smear ℂ img dist ang ps os).s0 = img.s0 ∧ (smear ℂ img dist ang ps os).s1 = img.s1) :=
-  ⟨⟨rfl, rfl⟩, ⟨rfl, rfl⟩, ⟨rfl, rfl⟩, ⟨rfl, rfl⟩, ⟨rfl, rfl⟩, ⟨rfl, rfl⟩⟩
+  ⟨⟨rfl, rfl⟩, ⟨rfl, rfl⟩, ⟨rfl, rfl⟩, ⟨rfl, rfl⟩,
+   ⟨by rw [jitter_def, renormZ_s0]; rfl, by rw [jitter_def, renormZ_s1]; rfl⟩,
+   ⟨by rw [smear_def, renormZ_s0]; rfl, by rw [smear_def, renormZ_s1]; rfl⟩⟩
 
 /-- every transfer function has unit gain at zero frequency (index `(0,0)`), whatever the extent, angle and sampling -/
 theorem kernel_dc_gain_one (s0 s1 : ℤ) (h0 : 1 ≤ s0) (h1 : 1 ≤ s1) (os scale dist ang ps : ℝ) :
@@ -83,40 +85,56 @@ theorem zero_extent_kernel_one (s0 s1 : ℤ) (os ang ps : ℝ) (i j : ℤ) :
   · simp [jitterKernel, Gen.bwJitterKernel, BlurLike.exp]
   · simp [smearKernel, Gen.bwSmearKernel, BlurLike.sinc]
 
-/-- **zero extent is the identity.** For a non-negative image with non-zero total, pixel width `0`, jitter `σ = 0` and
-smear distance `0` return the image itself at every sample, for every shape, angle, pixel scale and oversampling. -/
+/-- **zero extent is the identity.** For every non-negative image — the all-zero image included — pixel width `0`, jitter
+`σ = 0` and smear distance `0` return the image itself at every sample, for every shape, angle, pixel scale and oversampling.
+(When the blurred frame has zero total the regenerated guard returns it un-normalised; otherwise its total is the image's,
+non-zero, and the rescaling factor is 1.) -/
 theorem zero_extent_identity (img : Arr ℝ) (m n : ℕ) (hm : img.s0 = m) (hn : img.s1 = n) (hm0 : 0 < m) (hn0 : 0 < n)
-    (hpos : ∀ i j, 0 ≤ img.get i j) (hS : arrSum img ≠ 0) (os ang ps : ℝ) (i j : ℕ) (hi : i < m) (hj : j < n) :
+    (hpos : ∀ i j, 0 ≤ img.get i j) (os ang ps : ℝ) (i j : ℕ) (hi : i < m) (hj : j < n) :
     (pixel ℂ img 0).get i j = img.get i j ∧ (jitter ℂ img 0 ps os).get i j = img.get i j ∧
     (smear ℂ img 0 ang ps os).get i j = img.get i j := by
   rw [pixel_def, jitter_def, smear_def]
   have hcore : ∀ k : Arr ℝ, (∀ i j, k.get i j = 1) → ∀ i j : ℕ, i < m → j < n → (blurCore ℂ img k).get i j = img.get i j := by
     intro k hk i j hi hj
     rw [blurCore_one img k hk m n hm hn hm0 hn0 i j hi hj, abs_of_nonneg (hpos _ _)]
-  refine ⟨hcore _ (fun i j => (zero_extent_kernel_one _ _ os ang ps i j).1) i j hi hj, ?_, ?_⟩
-  · exact renorm_of_eq img (blurCore ℂ img (jitterKernel img.s0 img.s1 0 ps os)) m n hm hn hm hn
-      (hcore _ (fun i j => (zero_extent_kernel_one _ _ os ang ps i j).2.1)) hS i j hi hj
-  · exact renorm_of_eq img (blurCore ℂ img (smearKernel img.s0 img.s1 0 ang ps os)) m n hm hn hm hn
-      (hcore _ (fun i j => (zero_extent_kernel_one _ _ os ang ps i j).2.2)) hS i j hi hj
+  have hz : ∀ k : Arr ℝ, (∀ i j, k.get i j = 1) → (renormZ img (blurCore ℂ img k)).get i j = img.get i j := by
+    intro k hk
+    have hsum : arrSum (blurCore ℂ img k) = arrSum img := by
+      have e0 : (blurCore ℂ img k).s0 = m := hm
+      have e1 : (blurCore ℂ img k).s1 = n := hn
+      rw [arrSum_eq, arrSum_eq, hm, hn, e0, e1]
+      simp only [Int.toNat_natCast]
+      exact sum_congr rfl fun i hi => sum_congr rfl fun j hj => hcore k hk i j (mem_range.mp hi) (mem_range.mp hj)
+    by_cases h0 : arrSum (blurCore ℂ img k) = 0
+    · rw [renormZ_zero _ _ h0]; exact hcore k hk i j hi hj
+    · rw [renormZ_ne _ _ h0]
+      exact renorm_of_eq img (blurCore ℂ img k) m n hm hn hm hn (hcore k hk) (hsum ▸ h0) i j hi hj
+  exact ⟨hcore _ (fun i j => (zero_extent_kernel_one _ _ os ang ps i j).1) i j hi hj,
+    hz _ (fun i j => (zero_extent_kernel_one _ _ os ang ps i j).2.1), hz _ (fun i j => (zero_extent_kernel_one _ _ os ang ps i j).2.2)⟩
 
-example : ∃ img : Arr ℝ, (∀ i j, 0 ≤ img.get i j) ∧ arrSum img ≠ 0 ∧ img.s0 ≠ img.s1 :=
-  ⟨⟨1, 2, fun _ _ => 1⟩, fun _ _ => by norm_num, by rw [arrSum_eq]; norm_num [Finset.sum_range_succ], by norm_num⟩
+/-- the hypotheses are met by a non-square image with signal and by the all-zero image alike -/
+example : (∃ img : Arr ℝ, (∀ i j, 0 ≤ img.get i j) ∧ arrSum img ≠ 0 ∧ img.s0 ≠ img.s1) ∧
+    (∃ img : Arr ℝ, (∀ i j, 0 ≤ img.get i j) ∧ arrSum img = 0 ∧ img.s0 = 3 ∧ img.s1 = 4) :=
+  ⟨⟨⟨1, 2, fun _ _ => 1⟩, fun _ _ => by norm_num, by rw [arrSum_eq]; norm_num [Finset.sum_range_succ], by norm_num⟩,
+   ⟨⟨3, 4, fun _ _ => 0⟩, fun _ _ => le_refl _, by rw [arrSum_eq]; simp, rfl, rfl⟩⟩
 
-/-- outputs are never negative: pixel on every image; jitter and smear on images with *positive* total. The all-zero image — the
-one non-negative image with total 0 — is left out on purpose: there the real code evaluates `0·0/0 = nan` (known finding
-KF-C19-zero-image-nan, run on every check), while `x/0 = 0` in ℝ would make the inequality hold for the wrong reason. With a
-positive total the renormalisation divides by `Σ blur ≥ Σ img > 0` (`blurCore_total_ge`), so no division by zero is involved. -/
-theorem blur_nonneg (img : Arr ℝ) (os scale dist ang ps : ℝ) (i j : ℤ) :
-    0 ≤ (pixel ℂ img os).get i j ∧
-    (0 < arrSum img → 0 ≤ (jitter ℂ img scale ps os).get i j ∧ 0 ≤ (smear ℂ img dist ang ps os).get i j) := by
+/-- **outputs are never negative**, for every image whose total is non-negative — every non-negative image, the all-zero one
+included. A blurred frame with zero total is returned as it is (`|·| ≥ 0`; the guard regenerated from the source), any other is
+multiplied by `Σ img / Σ blur` with `Σ img ≥ 0` and `Σ blur > 0`: no division by zero is involved in either case. -/
+theorem blur_nonneg (img : Arr ℝ) (os scale dist ang ps : ℝ) (hS : 0 ≤ arrSum img) (i j : ℤ) :
+    0 ≤ (pixel ℂ img os).get i j ∧ 0 ≤ (jitter ℂ img scale ps os).get i j ∧ 0 ≤ (smear ℂ img dist ang ps os).get i j := by
   have hcore : ∀ k : Arr ℝ, ∀ i j : ℤ, 0 ≤ (blurCore ℂ img k).get i j := by
     intro k i j; rw [blurCore_def]; simp only [absArr, AbsLike.cabs]; exact norm_nonneg _
   have hsum : ∀ k : Arr ℝ, 0 ≤ arrSum (blurCore ℂ img k) := by
     intro k; rw [arrSum_eq]; exact sum_nonneg fun i _ => sum_nonneg fun j _ => hcore k i j
+  have hz : ∀ k : Arr ℝ, 0 ≤ (renormZ img (blurCore ℂ img k)).get i j := by
+    intro k
+    by_cases h0 : arrSum (blurCore ℂ img k) = 0
+    · rw [renormZ_zero _ _ h0]; exact hcore k i j
+    · rw [renormZ_ne _ _ h0, renorm_get]
+      exact div_nonneg (mul_nonneg (hcore _ i j) hS) (lt_of_le_of_ne (hsum k) (Ne.symm h0)).le
   rw [pixel_def, jitter_def, smear_def]
-  refine ⟨hcore _ i j, fun hS => ⟨?_, ?_⟩⟩
-  · rw [renorm_get]; exact div_nonneg (mul_nonneg (hcore _ i j) hS.le) (hsum _)
-  · rw [renorm_get]; exact div_nonneg (mul_nonneg (hcore _ i j) hS.le) (hsum _)
+  exact ⟨hcore _ i j, hz _, hz _⟩
 
 /-- renormalisation restores the input total whenever the un-normalised blur has non-zero total -/
 theorem renorm_total (img out : Arr ℝ) (h : arrSum out ≠ 0) : arrSum (renorm img out) = arrSum img := by
@@ -129,21 +147,26 @@ theorem renorm_total (img out : Arr ℝ) (h : arrSum out ≠ 0) : arrSum (renorm
   rw [← arrSum_eq]
   field_simp
 
-/-- **jitter and smear keep the total.** For every image with non-zero total (in particular every non-negative image
-that is not identically zero), every shape, extent, angle, pixel scale and oversampling: the un-normalised blur has total
-`≥ |Σ img| > 0` (unit DC gain: `Σ ifft2(fft2(img)·K) = K[0,0]·Σ img`, then the triangle inequality), so the renormalised
-output has exactly the input total. The identically-zero image is excluded: the real code returns `nan` there (`0·0/0`; known
-finding KF-C19-zero-image-nan) — the property's "every non-negative input" does not hold for it. -/
+/-- **jitter and smear keep the total of every image** — every shape, extent, angle, pixel scale and oversampling, no condition on
+the image (so every non-negative image, the all-zero one included). The un-normalised blur has total `≥ |Σ img|` (unit DC gain:
+`Σ ifft2(fft2(img)·K) = K[0,0]·Σ img`, then the triangle inequality). If that total is zero, so is `Σ img`, and the guard
+regenerated from the source returns the blurred frame, total `0 = Σ img`; otherwise the rescaling by `Σ img / Σ blur` restores
+`Σ img` exactly. -/
 theorem renormalised_total_preserved (img : Arr ℝ) (m n : ℕ) (hm : img.s0 = m) (hn : img.s1 = n) (hm0 : 0 < m) (hn0 : 0 < n)
-    (hS : arrSum img ≠ 0) (scale dist ang ps os : ℝ) :
+    (scale dist ang ps os : ℝ) :
     arrSum (jitter ℂ img scale ps os) = arrSum img ∧ arrSum (smear ℂ img dist ang ps os) = arrSum img := by
   have hdc := kernel_dc_gain_one img.s0 img.s1 (by omega) (by omega) os scale dist ang ps
-  have key : ∀ k : Arr ℝ, k.get 0 0 = 1 → arrSum (blurCore ℂ img k) ≠ 0 := by
+  have key : ∀ k : Arr ℝ, k.get 0 0 = 1 → arrSum (renormZ img (blurCore ℂ img k)) = arrSum img := by
     intro k hk
     have h := blurCore_total_ge img k m n hm hn hm0 hn0
     rw [hk, one_mul] at h
-    exact ne_of_gt (lt_of_lt_of_le (abs_pos.mpr hS) h)
-  exact ⟨renorm_total img _ (key _ hdc.2.1), renorm_total img _ (key _ hdc.2.2)⟩
+    by_cases h0 : arrSum (blurCore ℂ img k) = 0
+    · rw [renormZ_zero _ _ h0, h0]
+      rw [h0] at h
+      exact (abs_eq_zero.mp (le_antisymm h (abs_nonneg _))).symm
+    · rw [renormZ_ne _ _ h0]; exact renorm_total img _ h0
+  rw [jitter_def, smear_def]
+  exact ⟨key _ hdc.2.1, key _ hdc.2.2⟩
 
 /-- **commutes with circular translation.** Blurring a circularly shifted image (`np.roll(img, (a, b))`) is the circular
 shift of the blurred image, at every sample, for every shape, shift of either sign, extent, angle and sampling (DFT shift
@@ -169,14 +192,24 @@ theorem blur_commutes_with_roll (img : Arr ℝ) (m n : ℕ) (hm : img.s0 = m) (h
     have f0 : (blurCore ℂ img k).s0 = m := hm
     have f1 : (blurCore ℂ img k).s1 = n := hn
     rw [roll_get, f0, f1]
-  have hren : ∀ k : Arr ℝ, (renorm (roll img a b) (blurCore ℂ (roll img a b) k)).get i j
-      = (roll (renorm img (blurCore ℂ img k)) a b).get i j := by
+  have hren : ∀ k : Arr ℝ, (renormZ (roll img a b) (blurCore ℂ (roll img a b) k)).get i j
+      = (roll (renormZ img (blurCore ℂ img k)) a b).get i j := by
     intro k
-    have f0 : (renorm img (blurCore ℂ img k)).s0 = m := hm
-    have f1 : (renorm img (blurCore ℂ img k)).s1 = n := hn
-    rw [roll_get, f0, f1]
-    simp only [renorm]
-    rw [hsum k, arrSum_roll img m n hm hn a b, core k i j]
+    by_cases h0 : arrSum (blurCore ℂ img k) = 0
+    · have h0' : arrSum (blurCore ℂ (roll img a b) k) = 0 := (hsum k).trans h0
+      rw [renormZ_zero _ _ h0', renormZ_zero _ _ h0]
+      have f0 : (blurCore ℂ img k).s0 = m := hm
+      have f1 : (blurCore ℂ img k).s1 = n := hn
+      rw [roll_get, f0, f1]
+      exact core k i j
+    · have h0' : arrSum (blurCore ℂ (roll img a b) k) ≠ 0 := fun h => h0 ((hsum k).symm.trans h)
+      rw [renormZ_ne _ _ h0', renormZ_ne _ _ h0]
+      have f0 : (renorm img (blurCore ℂ img k)).s0 = m := hm
+      have f1 : (renorm img (blurCore ℂ img k)).s1 = n := hn
+      rw [roll_get, f0, f1]
+      simp only [renorm]
+      rw [hsum k, arrSum_roll img m n hm hn a b, core k i j]
+  rw [jitter_def, jitter_def, smear_def, smear_def]
   refine ⟨?_, hren _, hren _⟩
   have f0 : (pixel ℂ img os).s0 = m := hm
   have f1 : (pixel ℂ img os).s1 = n := hn
@@ -288,7 +321,7 @@ theorem smear_renormalised_deviation (img : Arr ℝ) (m n : ℕ) (hm : img.s0 = 
   have hget : (smear ℂ img dist ang ps os).get i j
       = (blurCore ℂ img (smearKernel m n dist ang ps os)).get i j
         * (arrSum img / arrSum (blurCore ℂ img (smearKernel m n dist ang ps os))) := by
-    rw [smear_def, renorm_get, hm, hn, mul_div_assoc]
+    rw [smear_def, hm, hn, renormZ_ne _ _ hTpos.ne', renorm_get, mul_div_assoc]
   rw [hget, ← sub_mul, abs_mul, abs_of_nonneg hfac0]
   calc _ ≤ abs ((blurCore ℂ img (smearKernel m n dist ang ps os)).get i j
           - abs ((conv img (evenPart (smearKernel m n dist ang ps os) m n)).get i j).re) * 1 :=
